@@ -1,6 +1,7 @@
 package main
 
 import (
+	"sync/atomic"
 	"context"
 	"encoding/json"
 	"fmt"
@@ -69,7 +70,42 @@ type pKey struct {
 	multi            bool
 }
 
+// pCountCtx: a context that turns cancelled at its k-th consultation (Err or Done), so that a resolution is
+// abandoned at a reproducible point: before anything happened (k = 0), or somewhere inside
+type pCountCtx struct {
+	context.Context
+	left int32
+	ch   chan struct{}
+	once sync.Once
+}
+
+func newPCountCtx(k int) *pCountCtx {
+	return &pCountCtx{Context: context.Background(), left: int32(k), ch: make(chan struct{})}
+}
+
+func (c *pCountCtx) tick() {
+	if atomic.AddInt32(&c.left, -1) < 0 {
+		c.once.Do(func() { close(c.ch) })
+	}
+}
+
+func (c *pCountCtx) Err() error {
+	c.tick()
+	select {
+	case <-c.ch:
+		return context.Canceled
+	default:
+		return nil
+	}
+}
+
+func (c *pCountCtx) Done() <-chan struct{} { c.tick(); return c.ch }
+
 func resolveBuilt(built []builtArch, self int, world []string, multi bool) string {
+	return resolveBuiltCtx(context.Background(), built, self, world, multi)
+}
+
+func resolveBuiltCtx(ctx context.Context, built []builtArch, self int, world []string, multi bool) string {
 	all := map[string][]apk.NamedIndex{}
 	if multi {
 		for _, b := range built {
@@ -78,7 +114,6 @@ func resolveBuilt(built []builtArch, self int, world []string, multi bool) strin
 	} else {
 		all[built[self].arch] = built[self].indexes
 	}
-	ctx := context.Background()
 	res := apk.NewPkgResolver(ctx, built[self].indexes)
 	inst, conflicts, err := res.GetPackagesWithDependencies(ctx, world, all)
 	if err != nil {
@@ -138,6 +173,15 @@ func (puritySuite) Run(raw json.RawMessage) []Step {
 	var diverged []string
 	for i := 0; i < c.History; i++ {
 		k := keys[r.Intn(len(keys))]
+		if r.Chance(35) {
+			// an abandoned resolution first (its context turns cancelled at the n-th consultation): it may fail or
+			// finish, and whatever it leaves in the shared caches must not change any later answer
+			n := Pick(r, []int{0, 0, 1, 2, 3, 5, 8, 13, 21, 40})
+			ka := keys[r.Intn(len(keys))]
+			if got := resolveBuiltCtx(newPCountCtx(n), shared[ka.fam], ka.arch, c.Worlds[ka.world], ka.multi); got != "err" && got != baseline[ka] {
+				diverged = append(diverged, fmt.Sprintf("history step %d, resolution abandoned at consultation %d %+v: fresh=%s got=%s", i, n, ka, baseline[ka], got))
+			}
+		}
 		if got := resolveBuilt(shared[k.fam], k.arch, c.Worlds[k.world], k.multi); got != baseline[k] {
 			diverged = append(diverged, fmt.Sprintf("history step %d %+v: fresh=%s shared=%s", i, k, baseline[k], got))
 		}
